@@ -64,8 +64,9 @@ THE DOMAIN, explicitly (`savable`, RtDefs.lean — a decidable check on the valu
     MAX_SAVE_SVALUE_DEPTH levels).  Since the nesting fix restore REFUSES deeper text (`restore_nesting_bounded`), so
     the limit is part of the statement; before, restore followed any depth — and overflowed the C stack on
     "({({({..." (a 600 KB text), found this round;
-  * mapping keys: anything but floats (two float keys that print alike collapse — open finding K5, witness
-    `Witness.float_keys_collapse`), integer / string / object keys pairwise different (true of every real mapping);
+  * mapping keys: in THIS statement anything but floats, integer / string / object keys pairwise different (true of every
+    real mapping); float keys whose saved texts are pairwise different are covered by `roundtrip_float_keys` below
+    (two float keys that print alike collapse — open finding K5, witness `Witness.float_keys_collapse`);
   * floats: no condition on the value; `FloatsOK F v` is the stated contract of the float parameter (`FloatOK`: the
     saved text is a number token that `parse_numeric` reads back to a float with the same saved text), which the
     correspondence run checks on every generated double incl. ±0, subnormals, infinities and NaN.
@@ -82,6 +83,30 @@ example : savable NV.C16.deepExample = true := by decide
 example (mb : MbLen) : ∃ v', restoreVariable NV.C16.rtF mb (save NV.C16.rtF NV.C16.deepExample) = RvOut.value v' ∧
     Equiv NV.C16.rtF (erase NV.C16.deepExample) v' :=
   roundtrip NV.C16.rtF mb NV.C16.deepExample (by decide) NV.C16.deepExample_floatsOK NV.C16.deepExample_withinDepth
+
+/-- **Round trip, float keys included.**  The same statement on the inductive domain `Savable F v` (LemmasRt.lean): as
+`savable` + `FloatsOK`, except that the keys of a mapping only have to STAY DIFFERENT KEYS (`KeysDistinct`: whatever
+values equal to two keys up to `Equiv` come back, msameval tells them apart).  `keys_distinct_with_float_keys` gives that
+for float keys whose saved texts are pairwise different — finding K5 is exactly the case where they are not — under the
+`==` contract `EqPrintOK` for the floats that print like those keys (true of IEEE `==` unless 0.0 and -0.0 are both
+keys, which no mapping holds).  Non-vacuity: `floatKeyExample` (two float keys, an integer and a string key). -/
+theorem roundtrip_float_keys (F : FloatOps α) (mb : MbLen) (v : Value α) (hs : Savable F v)
+    (hd : saveVariable F v ≠ SaveOut.tooDeep) :
+    ∃ v', restoreVariable F mb (save F v) = RvOut.value v' ∧ Equiv F (erase v) v' := by
+  refine NV.C16.roundtrip_ind F mb v hs ?_
+  unfold saveVariable at hd
+  cases h : saveSize F 0 v with
+  | none => simp [h] at hd
+  | some n => rfl
+
+theorem keys_distinct_with_float_keys (F : FloatOps α) (ks : List (Value α))
+    (hn : (ks.filterMap (keyTagF F)).Nodup) (hc : EqPrintOK F ks) : KeysDistinct F ks :=
+  NV.C16.keysDistinct_of_tagsF F ks hn hc
+
+example (mb : MbLen) : ∃ v', restoreVariable NV.C16.rtF2 mb (save NV.C16.rtF2 NV.C16.floatKeyExample) = RvOut.value v' ∧
+    Equiv NV.C16.rtF2 (erase NV.C16.floatKeyExample) v' :=
+  roundtrip_float_keys NV.C16.rtF2 mb NV.C16.floatKeyExample NV.C16.floatKeyExample_savable
+    NV.C16.floatKeyExample_withinDepth
 
 /-- **The C stack use of restore is bounded**: an activation of restore_internal_size at a nesting level beyond
 MAX_SAVE_SVALUE_DEPTH refuses at once, for every text; every recursive call passes `nest + 1`; the value pass
@@ -304,6 +329,15 @@ theorem save_structure_bytes_as_in_source (F : FloatOps α) :
     save F (.cls (.cons .obj .nil)) ++ [0] = NV.Gen.C16.saveClassLits ∧
     save F (.map (.cons .obj .obj .nil)) ++ [0] = NV.Gen.C16.saveMappingLits := by
   refine ⟨?_, ?_, ?_⟩ <;> simp [save, saveElems, savePairs] <;> decide
+
+/-- the statements that carry the restore nesting limit and the dry run of save_object read as `preD` /
+`saveObjectScript` model them (REGENERATED by comparison with the source text): the test `nesting > MAX_SAVE_SVALUE_DEPTH`
+at the entry of restore_internal_size, `nesting + 1` in its three recursive calls, the literal restore_size passes
+(= level of the outermost container, 1 in `restoreContainer`, plus one); the dry run stands before `fopen`, advances the
+variable cursor, and the writing run follows the header -/
+theorem nesting_and_dry_run_sites_as_modelled :
+    NV.Gen.C16.nestingSitesAsModelled = true ∧ NV.Gen.C16.restoreSizeNestingArg = 1 + 1 ∧
+    NV.Gen.C16.dryRunSitesAsModelled = true := by decide
 
 /-! ### what the restore functions dispatch on -/
 
